@@ -351,6 +351,40 @@ impl Property for C05 {
                 let est = if k == 0 { Some(est_expr(&e).min(u64::MAX as u128) as u64) } else { None };
                 Case { text: format!("\u{3}{}", s2), est, paths }
             },
+            3 if t.chance(90) => {
+                // saturation algebra: word-sized bounds meeting in concatenations, alternations
+                // and nested repetitions (sums, unions and products of saturated ranges)
+                let big = ["18446744073709551615", "18446744073709551614", "9223372036854775808", "9223372036854775807", "4294967296", "6148914691236517205"];
+                let small = ["0", "1", "2", "3"];
+                let rep = |t: &mut Tape| -> String {
+                    let unit = t.pick(&["a", "a/", "*", "*/", "?", "[ab]", "ab"]);
+                    let b = t.pick(&big);
+                    let sm = t.pick(&small);
+                    let b2 = t.pick(&big);
+                    match t.below(8) {
+                        0 => format!("<{}:{}>", unit, b),
+                        1 => format!("<{}:{},>", unit, b),
+                        2 => format!("<{}:{},{}>", unit, sm, b),
+                        3 => format!("<{}:{},{}>", unit, b, b2),
+                        4 => format!("<{}:{},{}>", unit, sm, match sm { "0" => "1", "1" => "2", "2" => "3", _ => "4" }),
+                        5 => format!("<{}:{}>", unit, sm),
+                        6 => format!("<{}:{},>", unit, sm),
+                        _ => unit.to_string(),
+                    }
+                };
+                let r: Vec<String> = (0..5).map(|_| rep(t)).collect();
+                let s = match t.below(8) {
+                    0 => format!("{{{}{},{}}}", r[0], r[1], r[2]),
+                    1 => format!("{}{}{{{},{}}}", r[0], r[1], r[2], r[3]),
+                    2 => format!("<{}{}:{}>", r[0], r[1], t.pick(&big)),
+                    3 => format!("{{{},{}}}{{{},{}}}", r[0], r[1], r[2], r[3]),
+                    4 => format!("{{{}{},{}{}}}x", r[0], r[1], r[2], r[3]),
+                    5 => format!("<{{{},{}}}:{},{}>", r[0], r[1], t.pick(&small), t.pick(&big)),
+                    6 => format!("{{{}{}{},{}}}", r[0], r[1], r[2], r[3]),
+                    _ => format!("{}{{{}{},{}}}{}", r[0], r[1], r[2], r[3], r[4]),
+                };
+                Case { text: format!("\u{4}{}", s), est: None, paths }
+            },
             3 => {
                 // extreme bounds, textual (so that numbers beyond usize can be spelled)
                 let mut c = GenCfg::default();
@@ -416,6 +450,7 @@ impl Property for C05 {
             "<[!a]:100000>",
             "<a:1,18446744073709551615>*",
             "<a*:0,4294967296>",
+            "{<a:18446744073709551615><b:1,2>,<a:18446744073709551615>}",
         ] {
             v.push(Case { text: format!("\u{4}{}", s), est: None, paths: vec![] });
         }
